@@ -143,6 +143,9 @@ def judge_echo(role, o):
     if o["offer_problem"]:
         bad.append(("deflate-" + o["offer_problem"], "negotiated parameters do not honour the offer"))
     want_recv = [v for _, _, v in o["sent"]]
+    if o["received"] == want_recv and [type(x) for x in o["received"]] != [type(x) for x in want_recv]:
+        bad.append(("received-type", "application received types %r, expected %r"
+                    % ([type(x).__name__ for x in o["received"]], [type(x).__name__ for x in want_recv])))
     if o["received"] != want_recv:
         i = next((k for k, (a, b) in enumerate(zip(o["received"], want_recv)) if a != b), min(len(o["received"]), len(want_recv)))
         got = o["received"][i] if i < len(o["received"]) else "<missing>"
@@ -226,10 +229,77 @@ def run_frag(role, ext, msg, splits, gaps, second=True):
                 s.restore()
 
 
+def run_async(ext, kinds):
+    """Server side with a coroutine on_message that suspends: messages are handed to the application one at a time, in
+    order - the next on_message starts only when the previous one has finished."""
+    import asyncio
+    with World() as w:
+        s = open_session(w, "server", ext, {})
+        if not s.ok:
+            return {"handshake_failed": True, "detail": ""}
+        st = {"active": 0, "max": 0}
+        started, finished, gates = [], [], []
+
+        async def om(hd, m):
+            st["active"] += 1
+            st["max"] = max(st["max"], st["active"])
+            started.append(m)
+            g = asyncio.Future()
+            gates.append(g)
+            await g
+            st["active"] -= 1
+            finished.append(m)
+        s.rec["on_message"] = om
+        want = []
+        data = b""
+        for i, kind in enumerate(kinds):
+            opcode, payload, value = make_message(kind, 9, salt=i)
+            want.append(value)
+            wire, rsv = payload, 0
+            if s.deflate is not None:
+                wire, rsv = s.deflate.compress(payload), 0x40
+            data += s.frame(True, opcode, wire, rsv=rsv)
+        s.feed(data)
+        w.pump()
+        early = list(started)
+        for _ in range(len(kinds) + 2):
+            pend = [g for g in gates if not g.done()]
+            if not pend:
+                break
+            pend[0].set_result(None)
+            w.pump()
+        return {"want": want, "started": started, "finished": finished, "max_active": st["max"], "early": early,
+                "closed": s.closed, "errs": [str(c.get("message"))[:80] for c in w.loop_errors()],
+                "logs": [(r[1], r[2][:60], r[3]) for r in w.logs.records if r[1] in ("ERROR", "CRITICAL")]}
+
+
+def judge_async(o):
+    bad = []
+    if o.get("handshake_failed"):
+        return [("handshake-failed", "")]
+    if o["max_active"] > 1:
+        bad.append(("coroutine-on_message-overlaps", "%d on_message coroutines were active at once (started before the "
+                    "first finished: %r)" % (o["max_active"], [repr(x)[:12] for x in o["early"]])))
+    if o["started"] != o["want"] or o["finished"] != o["want"]:
+        bad.append(("coroutine-on_message-order", "started %r finished %r, sent %r" % (
+            [repr(x)[:12] for x in o["started"]], [repr(x)[:12] for x in o["finished"]], [repr(x)[:12] for x in o["want"]])))
+    if o["closed"]:
+        bad.append(("connection-closed", "connection closed"))
+    if o["errs"]:
+        bad.append(("loop-exception", repr(o["errs"][:2])))
+    for l in o["logs"]:
+        bad.append(("log:%s" % (l[2] or l[1][:20]), repr(l)))
+        break
+    return bad
+
+
 def judge_frag(o):
     bad = []
     if o.get("handshake_failed"):
         return [("handshake-failed", "")]
+    if [type(x) for x in o["received"]] != [type(x) for x in o["want"]] and o["received"] == o["want"]:
+        bad.append(("fragmented-message-type", "application received types %r, expected %r"
+                    % ([type(x).__name__ for x in o["received"]], [type(x).__name__ for x in o["want"]])))
     if o["received"] != o["want"]:
         got = o["received"]
         kind = "missing" if len(got) < len(o["want"]) else "corrupt"
@@ -272,9 +342,26 @@ class C14(Check):
                 for ci in range(len(COPTS) if exts[ei] else 1):
                     parts.append(("echo", role, ei, ci))
                 parts.append(("frag", role, ei))
+        parts += [("async", ei) for ei in (0, 1)]
         return parts
 
     def run_partition(self, part, tier, st):
+        if part[0] == "async":
+            ext = SERVER_OFFERS[part[1]]
+            kinds3 = ("text", "bin-compressible", "bin-incompressible")
+            for n in (2, 3):
+                for kinds in itertools.product(kinds3, repeat=n):
+                    o = run_async(ext, kinds)
+                    st.ev()
+                    st.transitions += 2 * n
+                    key = h(("async", ext, kinds))
+                    st.states.add(key)
+                    st.nontrivial.add(key)
+                    st.outcome(h(("async", o.get("max_active"), len(o.get("finished", [])))))
+                    for sig, msg in judge_async(o):
+                        st.violation("server:%s%s" % (sig, ":deflate" if ext else ""), "ext=%r messages=%r: %s" % (ext, kinds, msg),
+                                     {"kind": "async", "ext": ext, "kinds": list(kinds)})
+            return
         if part[0] == "echo":
             _, role, ei, ci = part
             ext = (SERVER_OFFERS if role == "server" else CLIENT_RESPONSES)[ei]
@@ -349,6 +436,9 @@ class C14(Check):
             o = run_echo(case["role"], case["ext"], case["copts"], [tuple(m) for m in case["msgs"]], case["cut"])
             o2 = {k: (v if k not in ("sent", "received", "echo_events") else "<%d items>" % len(v)) for k, v in o.items()}
             return "%r\nverdict %r" % (o2, judge_echo(case["role"], o))
+        if case["kind"] == "async":
+            o = run_async(case["ext"], tuple(case["kinds"]))
+            return "%r\nverdict %r" % ({k: (repr(v)[:120]) for k, v in o.items()}, judge_async(o))
         o = run_frag(case["role"], case["ext"], tuple(case["msg"]), tuple(case["splits"]), tuple(case["gaps"]))
         return "%r\nverdict %r" % (o, judge_frag(o))
 
